@@ -44,7 +44,7 @@ def expected_items(seq, cfg):
 
 def judge(seq, cfg):
     data = streams.seq_bytes(seq)
-    r = run_reader(data, cfg)
+    r = run_reader(data, cfg, use_iter=True)  # the statement speaks of *iterating* the reader
     exp = expected_items(seq, cfg)
     got = item_sigs(r)
     out = []
